@@ -287,7 +287,7 @@ func runC01(rc *sim.RunCtx) {
 func init() {
 	Register(&sim.Check{
 		ID: "C01", Level: "exploration", Run: runC01,
-		Rule: "seeded histories of TransactionSet (create/change/grow/shrink/reprio/delete/orphan/resubmit, 1-3 intents per transaction, overlapping owners, lists with 1-2 keys, leaf-lists, presence) from a generated running config; device state compared with the merge model after every accepted transaction. A run is non-trivial when >=2 owners overlap on a path and some transaction changes which owner rules a path; distinct = distinct behaviour signature (sequence of edit kinds, #owners, #contended paths, ruler change, outcome).",
+		Rule: "seeded histories of TransactionSet (create/change/grow/shrink/reprio/delete/orphan/resubmit, 1-3 intents per transaction, overlapping owners, lists with 1-2 keys, leaf-lists, presence) from a generated running config; the device is the direct one (proto view of the tree) or, in half of the runs, the real gnmiTarget (proto / json / json_ietf) in front of an in-process gNMI client; device state compared with the merge model after every accepted transaction. A run is non-trivial when >=2 owners overlap on a path and some transaction changes which owner rules a path; distinct = distinct behaviour signature (sequence of edit kinds, #owners, #contended paths, ruler change, outcome).",
 		Real: realCore, Stub: stubCore,
 		RequiredProbes: []string{"ruler-changed", "path-died", "shadowed-owner-edited", "multi-intent-tx"},
 		QuickSeconds:   35, ThoroughSeconds: 600,
